@@ -225,6 +225,9 @@ fn main() {
                         mm.push(json!({"tool": "recovery_blob", "skip": skip, "expected": "output validates", "got": format!("{e:#}")}));
                         continue;
                     }
+                    // an altered format version is the business of the storage's version check (C17),
+                    // not of the tools, which copy the blob header as they find it
+                    if c.dmg.region == "bversion" { continue; }
                     let scratch = work.join("st");
                     let (o2, s2, n) = (out.clone(), scratch.clone(), c.n);
                     match rt.block_on(async move { served(&o2, &s2, n).await }) {
@@ -242,7 +245,7 @@ fn main() {
                 }
             }
             // move_and_recover_blob = in-place recovery with skipping
-            if !c.fails {
+            if !c.fails && c.dmg.region != "bversion" {
                 let inplace = work.join("inplace.blob");
                 std::fs::write(&inplace, &img).unwrap();
                 let backup = work.join("inplace.blob.bak");
